@@ -172,12 +172,21 @@ func Explore(sc *Scenario, maxBound, maxExecs int, deadline time.Time) *Result {
 			}
 			if sig != "" {
 				full := choicesOf(s)
-				// a failing schedule must fail identically when replayed
-				s2, st2 := RunOnce(sc, full, red)
-				sig2, _, _ := judge(sc, s2, st2)
-				res.Execs++
-				if sig2 != sig {
-					res.Internal = fmt.Sprintf("INTERNAL: schedule %v does not reproduce: %q then %q", full, sig, sig2)
+				// a failing schedule must fail again when replayed. The code under test may itself
+				// choose at random (Go's select picks among ready cases), so a violation that depends on
+				// such a choice reproduces only sometimes: it is accepted when one of up to 8 replays
+				// shows the same signature; if none does, the failure is the harness's (internal error)
+				reproduced := false
+				last := ""
+				for try := 0; try < 8 && !reproduced; try++ {
+					s2, st2 := RunOnce(sc, full, red)
+					sig2, _, _ := judge(sc, s2, st2)
+					res.Execs++
+					last = sig2
+					reproduced = sig2 == sig
+				}
+				if !reproduced {
+					res.Internal = fmt.Sprintf("INTERNAL: schedule %v does not reproduce: %q then %q", full, sig, last)
 					return false
 				}
 				res.addViolation(Violation{Sig: sig, Detail: detail + "\nschedule: " + RenderSchedule(s), Schedule: full, Bound: bound})
